@@ -100,22 +100,30 @@ def dictGet : List (DKey × Ref) → DKey → Option Ref
   | [], _ => none
   | (k', v') :: es, k => if k' = k then some v' else dictGet es k
 
-/-- `data[k]` as executed by `TreeMapView.__get` (tree.py:380-387). -/
-def index (h : Heap) (r : Ref) (k : PKey) : Except ErrKind Ref :=
-  match h[r]? with
-  | none => .error .other                       -- dangling reference: impossible in Python
-  | some (.dict es) =>
+/-- `seq[k]` for a list/tuple: integer keys only, negative indices from the end. -/
+def seqGet (rs : List Ref) (k : PKey) : Except ErrKind Ref :=
+  match k.asInt with
+  | none => .error .type                        -- list indices must be integers
+  | some i =>
+    match (resolveIdx rs.length i).bind (rs[·]?) with
+    | some c => .ok c
+    | none => .error .index                     -- IndexError
+
+/-- `node[k]` for the object stored in one cell (tree.py:380-387): dict lookup, sequence indexing, or the
+`KeyError('Cannot use ... as a mapping key')` raised for anything that is neither. -/
+def Node.slotGet : Node → PKey → Except ErrKind Ref
+  | .dict es, k =>
     match dictGet es k.toDKey with
     | some c => .ok c
     | none => .error .key                       -- KeyError
-  | some (.list rs) | some (.tuple rs) =>
-    match k.asInt with
-    | none => .error .type                      -- list indices must be integers
-    | some i =>
-      match resolveIdx rs.length i with
-      | none => .error .index                   -- IndexError
-      | some j => match rs[j]? with | some c => .ok c | none => .error .index
-  | some (.leaf _) | some .null => .error .key  -- raise KeyError('Cannot use ... as a mapping key')
+  | .list rs, k | .tuple rs, k => seqGet rs k
+  | .leaf _, _ | .null, _ => .error .key
+
+/-- `data[k]` as executed by `TreeMapView.__get`. -/
+def index (h : Heap) (r : Ref) (k : PKey) : Except ErrKind Ref :=
+  match h[r]? with
+  | none => .error .other                       -- dangling reference: impossible in Python
+  | some n => n.slotGet k
 
 /-- `TreeMapView.__get` (tree.py:371-388): the loop over the path with the early returns for `SELF`
 and `Literal`. Returns the *reference* of the object read and whether `_maybe_map` is applied to it
